@@ -1367,7 +1367,7 @@ for _it in UNITS["bucket"]["items"]:
         _it["serves"] = ["C02", "C05"]
     else:
         _it["serves"] = ["C02", "C16"] + (["C05"] if _nm in _C05_DEPS else [])
-UNITS["bucket"]["search_tests"] = {"C02": "verif_search_c02", "C05": "verif_search_reqh_c05", "C16": "verif_search_c16_route"}
+UNITS["bucket"]["search_tests"] = {"C02": "verif_search_c02", "C05": "verif_search_reqh_c05", "C16": "verif_search_c16_route"}  # the filter "verif_search_c02" also runs verif_search_c02_reply
 
 # ---------------------------------------------------------------------------------------------
 # unit keystore (C18): password gating of the encrypted key store, await-erased
@@ -1492,3 +1492,233 @@ UNITS["keystore"] = {
         "cache VALUE coherence after a failed store is proved only when the file was left unchanged: a failure of SecureMemory::from_slice (memory locking) AFTER the file was rewritten would leave the previous seed cached (not reproducible here; recorded as an assumption, not a finding)",
     ],
 }
+
+# ---------------------------------------------------------------------------------------------
+# unit placement (C17): diversity validation and the selection loop
+# ---------------------------------------------------------------------------------------------
+def _pl_tally_loop(it, m, tally):
+    return f"""
+            invariant
+                {it}.seq().len() == selection@.len(), forall|k: int| 0 <= k < selection@.len() ==> *#[trigger] {it}.seq()[k] == selection@[k],
+                selection@.len() < usize::MAX,
+                {tally}({m}@, selection@, {it}.index@),
+"""
+def _pl_check_loop(it, g, cap, tally, kty):
+    return f"""
+            invariant
+                forall|i: int| 0 <= i < {it}.seq().len() ==> {g}.contains_key(*(#[trigger] {it}.seq()[i]).0) && {g}[*{it}.seq()[i].0] == *{it}.seq()[i].1,
+                forall|k: {kty}| {g}.contains_key(k) ==> exists|i: int| 0 <= i < {it}.seq().len() && *(#[trigger] {it}.seq()[i]).0 == k,
+                forall|i: int| 0 <= i < {it}.index@ ==> *(#[trigger] {it}.seq()[i]).1 <= self.{cap},
+                {tally}({g}, selection@, selection@.len() as int),
+"""
+def _pl_iter_facts(itv, g, kty):
+    return f"""proof {{
+            let s0 = {itv}.remaining();
+            assert(forall|i: int| 0 <= i < s0.len() ==> {g}.contains_key(*(#[trigger] s0[i]).0) && {g}[*s0[i].0] == *s0[i].1);
+            assert(forall|k: {kty}| {g}.contains_key(k) ==> exists|i: int| 0 <= i < s0.len() && *(#[trigger] s0[i]).0 == k);
+        }}"""
+def _pl_inc_proof(it, m, tally, cnt, kty, fld, other):
+    return f"""proof {{
+                let n = {it}.index@;
+                lemma_take_step(selection@, n);
+                assert forall|g: {kty}| ({m}@.contains_key(g) <==> {cnt}(selection@.take(n + 1), g) > 0)
+                    && (#[trigger] {m}@.contains_key(g) ==> {m}@[g] == {cnt}(selection@.take(n + 1), g)) by {{
+                    lemma_count_bound(selection@.take(n), {other});
+                }}
+            }}"""
+UNITS["placement"] = {
+    "property": "C17",
+    "src": "src/placement/algorithms.rs",
+    "spec": "verus/placement.spec.rs",
+    "preludes": ["verus/float.spec.rs"],
+    "enums_from": [("src/placement/types.rs", "NetworkRegion")],
+    "shims": {
+        "DiversityEnforcer": (None, {"min_geographic_distance": "f64", "max_nodes_per_region": "usize", "max_nodes_per_asn": "usize", "diversity_penalty": "f64"}),
+    },
+    "items": [
+        {"impl": "DiversityEnforcer", "fn": "validate_selection", "erase_error_structs": ["PlacementError::"], "desugar": ["enumerate"], "loop_count": 6,
+         "rewrite": [
+             (r"self\.min_geographic_distance / 2\.0", "verif_f64(self.min_geographic_distance) / 2.0", "struct-field read wrapped in the verified identity verif_f64 (trigger matching of the float axioms)"),
+             (r"for \(node_a, loc_a, _, _\) in selection\.iter\(\)", "for (node_a, loc_a, _, _) in it_a: selection.iter()", "ghost iterator binder (binder only)"),
+             (r"for \(node_b, loc_b, _, _\) in selection\.iter\(\)", "for (node_b, loc_b, _, _) in it_b: selection.iter()", "ghost iterator binder (binder only)"),
+             (r"for \(_, _, _, region\) in selection \{", "for (_, _, _, region) in it_r: selection.iter() {", "`for .. in &[T]` written as `for .. in slice.iter()` (IntoIterator for &[T] is iter()); ghost iterator binder"),
+             (r"for \(_, _, asn, _\) in selection \{", "for (_, _, asn, _) in it_s: selection.iter() {", "`for .. in &[T]` written as `for .. in slice.iter()`; ghost iterator binder"),
+             (r"\*region_counts\.entry\(\*region\)\.or_insert\(0\) \+= 1;", "verif_count_inc(&mut region_counts, *region);", "`*map.entry(k).or_insert(0) += 1` renamed to a shim fn standing for that statement (contract: the count under k grows by one, assumed)"),
+             (r"\*asn_counts\.entry\(\*asn\)\.or_insert\(0\) \+= 1;", "verif_count_inc(&mut asn_counts, *asn);", "`*map.entry(k).or_insert(0) += 1` renamed to the same shim"),
+             (r"for \(region, count\) in region_counts \{", "let ghost rc = region_counts@;\n let rc_it = region_counts.iter();\n " + _pl_iter_facts("rc_it", "rc", "NetworkRegion") + "\n for (region_r, count_r) in it_rc: rc_it { let region = *region_r; let count = *count_r;", "consuming iteration over a HashMap of Copy keys / values written as iteration over `.iter()` with the two bindings dereferenced (same pairs; the map is not used afterwards); ghost copy of the map, ghost iterator binder, proof block"),
+             (r"for \(asn, count\) in asn_counts \{", "let ghost ac = asn_counts@;\n let ac_it = asn_counts.iter();\n " + _pl_iter_facts("ac_it", "ac", "u32") + "\n for (asn_r, count_r) in it_ac: ac_it { let asn = *asn_r; let count = *count_r;", "consuming iteration over a HashMap of Copy keys / values written as iteration over `.iter()`; ghost copy, ghost iterator binder, proof block"),
+         ],
+         "loops": {
+             0: """
+            invariant
+                i == it_a.index@, selection@.len() < usize::MAX,
+                it_a.seq().len() == selection@.len(), forall|k: int| 0 <= k < selection@.len() ==> *#[trigger] it_a.seq()[k] == selection@[k],
+                forall|a: int, b: int| 0 <= a < it_a.index@ && 0 <= b < selection@.len() && a != b ==>
+                    !f_lt(#[trigger] dist_km(selection@[a].1, selection@[b].1), f_div(self.min_geographic_distance, 2.0f64)),
+""",
+             1: """
+            invariant
+                j == it_b.index@, i < selection@.len(), selection@.len() < usize::MAX,
+                it_b.seq().len() == selection@.len(), forall|k: int| 0 <= k < selection@.len() ==> *#[trigger] it_b.seq()[k] == selection@[k],
+                *loc_a == selection@[i as int].1,
+                forall|b: int| 0 <= b < it_b.index@ && b != i ==>
+                    !f_lt(#[trigger] dist_km(selection@[i as int].1, selection@[b].1), f_div(self.min_geographic_distance, 2.0f64)),
+""",
+             2: _pl_tally_loop("it_r", "region_counts", "region_tally"),
+             3: _pl_check_loop("it_rc", "rc", "max_nodes_per_region", "region_tally", "NetworkRegion"),
+             4: _pl_tally_loop("it_s", "asn_counts", "asn_tally"),
+             5: _pl_check_loop("it_ac", "ac", "max_nodes_per_asn", "asn_tally", "u32"),
+         },
+         "insert_before": [
+             (r"verif_count_inc\(&mut region_counts, \*region\);", None, "proof { lemma_count_bound(selection@.take(it_r.index@), *region, 0u32); }"),
+             (r"verif_count_inc\(&mut asn_counts, \*asn\);", None, "proof { lemma_count_bound(selection@.take(it_s.index@), NetworkRegion::Unknown, *asn); }"),
+         ],
+         "insert_after": [
+             (r"verif_count_inc\(&mut region_counts, \*region\);", None, _pl_inc_proof("it_r", "region_counts", "region_tally", "count_region", "NetworkRegion", 3, "g, 0u32")),
+             (r"verif_count_inc\(&mut asn_counts, \*asn\);", None, _pl_inc_proof("it_s", "asn_counts", "asn_tally", "count_asn", "u32", 2, "NetworkRegion::Unknown, g")),
+         ],
+         "after_loop": {
+             2: "proof { assert(selection@.take(selection@.len() as int) =~= selection@); }",
+             3: """proof {
+            assert forall|g: NetworkRegion| #[trigger] count_region(selection@, g) <= self.max_nodes_per_region by {
+                assert(selection@.take(selection@.len() as int) =~= selection@);
+                if count_region(selection@, g) > 0 {
+                    assert(rc.contains_key(g));
+                }
+            }
+        }""",
+             4: "proof { assert(selection@.take(selection@.len() as int) =~= selection@); }",
+             5: """proof {
+            assert forall|a: u32| #[trigger] count_asn(selection@, a) <= self.max_nodes_per_asn by {
+                assert(selection@.take(selection@.len() as int) =~= selection@);
+                if count_asn(selection@, a) > 0 {
+                    assert(ac.contains_key(a));
+                }
+            }
+        }""",
+         },
+         "spec": """
+    requires
+        selection@.len() < usize::MAX,
+    ensures
+        r.is_ok() ==> far_apart(*self, selection@), // @C17/validate/accepted_only_if_no_two_nodes_are_closer_than_half_the_configured_distance
+        r.is_ok() ==> regions_capped(*self, selection@), // @C17/validate/accepted_only_if_no_region_holds_more_than_its_cap
+        r.is_ok() ==> asns_capped(*self, selection@), // @C17/validate/accepted_only_if_no_autonomous_system_holds_more_than_its_cap
+"""},
+    ],
+    "paired_kani": [],
+    "pinned_fns": [("src/placement/algorithms.rs", "WeightedSampler", "sample_nodes", "750ea5ddf41bd5e2", "k names taken from the candidates or an error -- ASSUMED (outside the dialect); exercised by the native search")],
+    "search_test": "verif_search_c17",
+    "trusted": [
+        "ASSUMED: GeographicLocation::distance_km is a deterministic function of its arguments (uninterpreted haversine); HashMap through vstd with the key model assumed for NetworkRegion / NodeId; `*map.entry(k).or_insert(0) += 1` behind a shim; IEEE comparison / division uninterpreted (float prelude)",
+        "error values PlacementError::Variant { .. } replaced by a unit error (payload dropped, including the filter/map/collect that lists the offending nodes)",
+    ],
+}
+
+_PL_SORT_PROOF = """proof {
+            w0.to_multiset_ensures(); weights@.to_multiset_ensures();
+            assert forall|i: int| 0 <= i < weights@.len() implies candidates@.contains((#[trigger] weights@[i]).0) by {
+                assert(weights@.contains(weights@[i]));
+                assert(w0.to_multiset().count(weights@[i]) > 0);
+                assert(w0.contains(weights@[i]));
+                let j = choose|j: int| 0 <= j < w0.len() && w0[j] == weights@[i];
+                assert(candidates@.contains(w0[j].0));
+            }
+        }"""
+_PL_ERR = {"erase_errors": ["PlacementError::"], "erase_error_structs": ["PlacementError::"]}
+UNITS["placement"]["shims"].update({
+    "WeightedPlacementStrategy": (None, {"sampler": "WeightedSampler", "diversity_enforcer": "DiversityEnforcer", "config": "PlacementConfig"}),
+    "PlacementDecision": ("src/placement/types.rs", {"selected_nodes": "Vec<NodeId>", "backup_nodes": "Vec<NodeId>", "placement_strategy": "String", "diversity_score": "f64",
+                                 "estimated_reliability": "f64", "selection_time": "Duration", "metadata": "HashMap<String, String>"}),
+})
+UNITS["placement"]["items"] += [
+    {"impl": "DiversityEnforcer", "fn": "new",
+     "spec": """
+    ensures
+        r.max_nodes_per_region == 2 && r.max_nodes_per_asn == 3, // @C17/config/default_caps_are_two_per_region_and_three_per_autonomous_system
+        r.min_geographic_distance == 100.0f64, // @C17/config/default_minimum_distance_is_100_km_so_the_accepted_floor_is_50_km
+"""},
+    {"impl": "WeightedPlacementStrategy", "fn": "calculate_weights", **_PL_ERR,
+     "block": {"name": "verif_calculate_weights_body", "of": "WeightedPlacementStrategy::calculate_weights",
+               "sig": "fn verif_calculate_weights_body(&self, candidates: &HashSet<NodeId>, _trust_system: &EigenTrustEngine, _performance_monitor: &PerformanceMonitor, node_metadata: &HashMap<NodeId, Meta>, selected_nodes: &[SelT]) -> PlacementResult<Vec<(NodeId, f64)>>",
+               "no_await": True,
+               "why": "`async fn` without any `.await` (checked): its body is verified as a plain function"},
+     "rewrite": [
+         (r"let mut weights = Vec::new\(\);", "let mut weights: Vec<(NodeId, f64)> = Vec::new();", "type annotation only"),
+         (r"for node_id in candidates \{", "let cw_it = candidates.iter();\n proof { lemma_set_iter_facts(candidates@, cw_it.remaining()); }\n for node_id in it_c: cw_it {", "`for .. in &HashSet` written as `for .. in set.iter()` (IntoIterator for &HashSet is iter()); iterator bound to a local so a proof block can name it; ghost iterator binder"),
+         (r"node_metadata\s*\.get\(node_id\)\s*\.ok_or_else\(\|\| VerifError \{\}\)", "verif_meta_get(node_metadata, node_id)", "`map.get(k).ok_or_else(|| err)` renamed to a shim fn (HashMap::get + Option::ok_or_else)"),
+         (r"weights\.sort_by\(\|a, b\| b\.1\.partial_cmp\(&a\.1\)\.unwrap_or\(std::cmp::Ordering::Equal\)\);", "let ghost w0 = weights@;\n verif_sort_weights(&mut weights);\n " + _PL_SORT_PROOF, "`weights.sort_by(cmp)` renamed to a shim fn (contract: a permutation -- std sort_by reorders only; the order itself is not part of any obligation); ghost copy + proof block"),
+     ],
+     "loops": {0: """
+            invariant
+                forall|i: int| 0 <= i < it_c.seq().len() ==> candidates@.contains(*(#[trigger] it_c.seq()[i])),
+                forall|i: int| 0 <= i < weights@.len() ==> candidates@.contains((#[trigger] weights@[i]).0),
+"""},
+     "spec": """
+    ensures
+        r matches Ok(w) ==> forall|i: int| 0 <= i < w@.len() ==> candidates@.contains((#[trigger] w@[i]).0), // @C17/weights/every_weighted_node_is_one_of_the_remaining_candidates
+"""},
+    {"impl": "WeightedPlacementStrategy", "fn": "select_nodes", **_PL_ERR,
+     "block": {"name": "verif_select_nodes_sequential", "of": "WeightedPlacementStrategy::select_nodes",
+               "sig": "fn verif_select_nodes_sequential(&mut self, candidates: &HashSet<NodeId>, replication_factor: u8, trust_system: &EigenTrustEngine, performance_monitor: &PerformanceMonitor, node_metadata: &HashMap<NodeId, Meta>) -> PlacementResult<PlacementDecision>",
+               "why": "await erasure: the only .await is the call of the strategy's own async helper calculate_weights, itself await-free and verified in this unit"},
+     "drop_all": [(r"let start_time = Instant::now\(\);\n", "timing of the call")],
+     "rewrite": [
+         (r"\.calculate_weights\(", ".verif_calculate_weights_body(", "call of the async helper renamed to its await-free body verified above"),
+         (r"\.await\b", "", "await erased (the awaited expression is the call of calculate_weights)"),
+         (r"let mut selected_nodes = Vec::new\(\);", "let mut selected_nodes: Vec<SelT> = Vec::new();", "type annotation only"),
+         (r"candidates\.clone\(\)", "verif_clone_set(candidates)", "HashSet::clone renamed to a shim fn (same elements)"),
+         (r"sample_nodes\(&weights, 1\)", "sample_nodes(weights.as_slice(), 1)", "deref coercion &Vec<T> -> &[T] made explicit"),
+         (r"selected\s*\.first\(\)\s*\.ok_or\(VerifError \{\}\)", "verif_first(&selected)", "`v.first().ok_or(err)` renamed to a shim fn"),
+         (r"node_metadata\s*\.get\(&selected_node\)\s*\.ok_or_else\(\|\| VerifError \{\}\)", "verif_meta_get(node_metadata, &selected_node)", "`map.get(k).ok_or_else(|| err)` renamed to a shim fn"),
+         (r"\.validate_selection\(&selected_nodes\)", ".validate_selection(selected_nodes.as_slice())", "deref coercion &Vec<T> -> &[T] made explicit"),
+         (r"selected_nodes\s*\.into_iter\(\)\s*\.map\(\|\(node_id, _, _, _\)\| node_id\)\s*\.collect\(\)", "verif_ids_of(selected_nodes)", "iterator chain `xs.into_iter().map(|(id, ..)| id).collect()` renamed to a shim fn (contract: the ids in order)"),
+         (r"\"weighted_efraimidis_spirakis\"\.to_string\(\)", "verif_strategy_name()", "string literal -> opaque shim (text not part of any obligation)"),
+         (r"metadata: HashMap::new\(\)", "metadata: verif_empty_string_map()", "HashMap::new renamed to an opaque shim (the metadata field is not part of any obligation)"),
+         (r"start_time\.elapsed\(\)", "verif_elapsed()", "timing -> opaque shim"),
+         (r"for round in 0\.\.k \{", "let ghost sel0 = selected_nodes@;\n for round in 0..k {", "ghost only", "optional"),
+     ],
+     "loops": {0: """
+            invariant
+                k == replication_factor as usize, k <= candidates@.len(),
+                selected_nodes@.len() == round,
+                distinct(ids(selected_nodes@)),
+                forall|i: int| 0 <= i < selected_nodes@.len() ==> candidates@.contains((#[trigger] selected_nodes@[i]).0) && !remaining_candidates@.contains(selected_nodes@[i].0),
+                forall|x: NodeId| #[trigger] remaining_candidates@.contains(x) ==> candidates@.contains(x),
+                meta_of(selected_nodes@, node_metadata@),
+                self.diversity_enforcer == old(self).diversity_enforcer,
+"""},
+     "insert_before": [
+         (r"selected_nodes\.push\(\(selected_node\.clone\(\), \*location, \*asn, \*region\)\);", None, """let ghost s_prev = selected_nodes@;
+            proof {
+                let i0 = choose|i: int| 0 <= i < weights@.len() && (#[trigger] weights@[i]).0 == selected@[0];
+                assert(remaining_candidates@.contains(weights@[i0].0));
+                assert(remaining_candidates@.contains(selected_node));
+            }"""),
+         (r"Ok\(decision\)", None, """proof {
+            assert(decision.selected_nodes@ =~= ids(sel));
+            assert(with_meta(decision.selected_nodes@, node_metadata@) =~= sel);
+        }"""),
+     ],
+     "insert_after": [
+         (r"selected_nodes\.push\(\(selected_node\.clone\(\), \*location, \*asn, \*region\)\);", None, """proof {
+                assert(selected_nodes@ == s_prev.push((selected_node, *location, *asn, *region)));
+                assert forall|i: int, j: int| 0 <= i < j < ids(selected_nodes@).len() implies ids(selected_nodes@)[i] != ids(selected_nodes@)[j] by {
+                    assert(ids(selected_nodes@)[i] == selected_nodes@[i].0 && ids(selected_nodes@)[j] == selected_nodes@[j].0);
+                    if j < s_prev.len() { assert(ids(s_prev)[i] == s_prev[i].0 && ids(s_prev)[j] == s_prev[j].0); }
+                    else { assert(!remaining_candidates@.contains(s_prev[i].0)); }
+                }
+            }"""),
+         (r"\.validate_selection\(selected_nodes\.as_slice\(\)\)\?;", None, "let ghost sel = selected_nodes@;"),
+     ],
+     "spec": """
+    ensures
+        r matches Ok(d) ==> d.selected_nodes@.len() == replication_factor as int, // @C17/select/a_decision_names_exactly_the_requested_number_of_nodes
+        r matches Ok(d) ==> distinct(d.selected_nodes@), // @C17/select/no_node_is_named_twice
+        r matches Ok(d) ==> forall|i: int| 0 <= i < d.selected_nodes@.len() ==> candidates@.contains(#[trigger] d.selected_nodes@[i]), // @C17/select/every_named_node_is_one_of_the_supplied_candidates
+        r matches Ok(d) ==> forall|i: int| 0 <= i < d.selected_nodes@.len() ==> node_metadata@.contains_key(#[trigger] d.selected_nodes@[i]),
+        r matches Ok(d) ==> far_apart(old(self).diversity_enforcer, with_meta(d.selected_nodes@, node_metadata@)), // @C17/select/no_two_named_nodes_are_closer_than_half_the_configured_distance
+        r matches Ok(d) ==> regions_capped(old(self).diversity_enforcer, with_meta(d.selected_nodes@, node_metadata@)), // @C17/select/no_region_holds_more_named_nodes_than_its_cap
+        r matches Ok(d) ==> asns_capped(old(self).diversity_enforcer, with_meta(d.selected_nodes@, node_metadata@)), // @C17/select/no_autonomous_system_holds_more_named_nodes_than_its_cap
+"""},
+]
